@@ -144,6 +144,131 @@ def run(ctx):
                 ctx.violation('gf-D-mismatch:%s' % name, 'GFCrystalcalc.D differs from the exact diffusivity by %.3g (tol %.3g)' % (egf, tol),
                               dict(rep, D_gf=Dgf.tolist(), D_model=Dm.tolist(), D_impl=np.asarray(Dpy).tolist()))
     special_networks(ctx)
+    stiff_stream(ctx)
+
+
+def _stiff_nets():
+    """extra low-symmetry multi-site networks without inversion (pinv branch with a site vector basis)"""
+    from onsager import crystal
+    if 'stiffnets' not in ic._CACHE:
+        res = []
+        p1 = crystal.Crystal(np.eye(2), [[np.array([0., 0.]), np.array([.4, 0.]), np.array([.15, .45])]], chemistry=['I'])
+        res.append(('p1-3site-2d', p1, 0, 0.75))
+        p1b = crystal.Crystal(np.array([[1., .25], [0., 1.2]]), [[np.array([0., 0.]), np.array([.375, .125]), np.array([.5, .625]), np.array([.125, .75])]], chemistry=['I'])
+        res.append(('p1-4site-2d', p1b, 0, 0.7))
+        pm = crystal.Crystal(np.diag([1., 1.25, .8]), [[np.array([0., 0., 0.]), np.array([.375, .25, 0.]), np.array([.125, .625, .5])]], chemistry=['I'])
+        res.append(('low-3site-3d', pm, 0, 0.85))
+        out = []
+        for name, crys, chem, cutoff in res:
+            jn = crys.jumpnetwork(chem, cutoff)
+            if len(jn) >= 2: out.append((name, crys, chem, crys.sitelist(chem), jn))
+        ic._CACHE['stiffnets'] = out
+    return ic._CACHE['stiffnets']
+
+
+def _site_space(diffuser, args):
+    pre, be, preT, beT = args
+    N, dim = diffuser.N, diffuser.dim
+    rho = diffuser.siteprob(pre, be); sq = np.sqrt(rho)
+    omega = np.zeros((N, N)); bias = np.zeros((N, dim)); gross = np.zeros(N); bgross = []
+    for cls, rates, srates in zip(diffuser.jumpnetwork, diffuser.ratelist(*args), diffuser.symmratelist(*args)):
+        for ((i, j), dx), rate, sr in zip(cls, rates, srates):
+            omega[i, j] += sr; omega[i, i] -= rate; bias[i] += sq[i] * rate * dx
+            gross[i] += abs(sr) + abs(rate); bgross.append((i, sq[i] * rate * np.asarray(dx)))
+    return omega, bias, gross.max(), bgross
+
+
+def stiff_stream(ctx):
+    """Widely separated rates (ratios 1e8 .. 1e12, i.e. barrier differences of 19 - 28 kT): some jump classes are made slow, preferably so
+    that a direction is carried by slow, biased jumps only.  The comparison is resolved by eigen-direction u of the exact tensor, with an
+    a-posteriori forward error bound of the float computation along u:
+        |u.(D - D_exact).u| <= 1e-9 u.D0.u + 100 eps (kappa |b_u| |gamma_u| + R |gamma_u|^2 + B_u |gamma_u|)
+    (kappa = condition number of the rate matrix on the complement of its null vector, b_u / gamma_u = bias and relaxation vectors along u,
+    R / B_u = sums of the absolute values of the terms assembled into a row of the rate matrix / into the bias along u: cancellation error):
+    where the fast jumps do not contribute along u the implementation must resolve the slow diffusivity."""
+    from onsager import OnsagerCalc
+    rng = ctx.rng
+    allnets = [n for n in ic.networks() if len(n[4]) >= 2] + _stiff_nets()
+    for name, crys, chem, sl, jn in allnets:
+        key = ('diff', name)
+        if key not in ic._CACHE:
+            ic._CACHE[key] = (OnsagerCalc.Interstitial(crys, chem, sl, jn), ic.lattice_jumps(crys, jn))
+    pinvnets = [n for n in allnets if not ic._CACHE[('diff', n[0])][0].omega_invertible]
+    ncase = 70 if ctx.quick else 700
+    plan, lines = [], []
+    for t in range(ncase):
+        pool = pinvnets if (t % 5 != 4 and pinvnets) else allnets
+        name, crys, chem, sl, jn = pool[(t // 5 * 4 + t % 5) % len(pool)] if pool is pinvnets else pool[(t // 5) % len(pool)]
+        diffuser, ljumps = ic._CACHE[('diff', name)]
+        data = ic.rand_data(rng, len(sl), len(jn), emax=2)
+        # slow subsets that leave some direction carried by slow jumps only (all of them, enumerated once per network)
+        dkey = ('deficient', name)
+        if dkey not in ic._CACHE:
+            import itertools
+            dl = []
+            ncl = len(jn)
+            subsets = itertools.chain.from_iterable(itertools.combinations(range(ncl), r) for r in range(1, ncl)) if ncl <= 10 else []
+            for sub in subsets:
+                G = sum((np.outer(dx, dx) for k, cls in enumerate(jn) if k not in sub for (ij, dx) in cls), np.zeros((crys.dim, crys.dim)))
+                ev = np.linalg.eigvalsh(G)
+                if ev.min() < 1e-9 * max(ev.max(), 1e-300): dl.append(list(sub))
+            ic._CACHE[dkey] = dl
+        dl = ic._CACHE[dkey]
+        if dl and rng.random() < 0.8:
+            slow, deficient = rng.choice(dl), True
+        else:
+            slow = sorted(rng.sample(range(len(jn)), rng.randint(1, len(jn) - 1)))
+            deficient = slow in dl
+        shift = rng.randint(46, 68)                       # (3/2)^46 = 1.3e8 ... (3/2)^68 = 9.5e11
+        data['eneT'] = [e + (shift if k in slow else 0) for k, e in enumerate(data['eneT'])]
+        plan.append((name, crys, sl, jn, diffuser, data, slow, shift, deficient))
+        lines.append(ic.request_line(diffuser.N, crys.dim, diffuser.invmap, ljumps, data))
+    answers = ctx.lean(DRIVER, lines, timeout=3000)
+    eps = np.finfo(float).eps
+    for (name, crys, sl, jn, diffuser, data, slow, shift, deficient), line, ans in zip(plan, lines, answers):
+        args = ic.py_args(data)
+        rep = dict(network=name, slow_classes=slow, shift=shift, data={k: [str(x) for x in v] if isinstance(v, list) else str(v) for k, v in data.items()})
+        parsed = ic.parse_answer(ans, crys.dim)
+        if parsed is None:
+            ctx.disagree('exact model rejects the stiff network/data (%s)' % ans, dict(rep, request=line)); continue
+        try:
+            Dpy = np.asarray(diffuser.diffusivity(*args))
+        except Exception as e:
+            ctx.violation('diffusivity-raises:%s' % type(e).__name__, 'Interstitial.diffusivity raised %r on widely separated rates' % (e,), rep); continue
+        L = crys.lattice
+        Dm = L @ parsed[0] @ L.T; D0m = L @ parsed[2] @ L.T
+        lam, U = np.linalg.eigh(Dm)
+        omega, bias, Rgross, bgross = _site_space(diffuser, args)
+        w, V = np.linalg.eigh(0.5 * (omega + omega.T))
+        order = np.argsort(np.abs(w)); w, V = w[order], V[:, order]
+        if len(w) < 2 or abs(w[1]) < 1e-14 * abs(w[-1]):
+            ctx.count('stiff:skipped-unresolvable'); continue        # a relaxation mode slower than float resolution of the rate matrix
+        kappa = abs(w[-1]) / abs(w[1])
+        ctx.case(('stiff', name, line), nontrivial=True, sample=dict(network=name, slow_classes=slow, shift=shift, eig_model=lam.tolist()))
+        ctx.count('stiff:' + ('solve' if diffuser.omega_invertible else 'pinv') + (':NV>0' if diffuser.NV else ':NV=0'))
+        if deficient: ctx.count('stiff:direction-carried-by-slow-jumps-only')
+        for k in range(crys.dim):
+            u = U[:, k]
+            s_k = float(u @ D0m @ u)
+            b_u = bias @ u
+            g_u = V[:, 1:] @ ((V[:, 1:].T @ b_u) / w[1:])
+            Bg = np.zeros(diffuser.N)
+            for i, v in bgross: Bg[i] += abs(float(v @ u))
+            ng = float(np.linalg.norm(g_u))
+            # solve error + assembly (cancellation) errors of the rate matrix and of the bias vector
+            tol = 1e-9 * s_k + 100 * eps * (kappa * float(np.linalg.norm(b_u)) * ng + Rgross * ng * ng + float(np.linalg.norm(Bg)) * ng)
+            # roundoff-lifted null modes of the assembled rate matrix that the pseudo-inverse keeps (fast self-image jumps added and
+            # subtracted on the diagonal): measured <= 3e-7 relative over ~1000 stiff cases; allow 1e-5 of the value along u
+            tol += 1e-5 * abs(float(u @ Dm @ u))
+            err = abs(float(u @ Dpy @ u) - float(u @ Dm @ u))
+            if tol < 1e-3 * abs(float(u @ Dm @ u)): ctx.count('stiff:direction-resolved-to-1e-3')
+            if not (err <= tol):
+                Dor = ic.numpy_oracle(diffuser, crys, jn, *args)
+                rep2 = dict(rep, direction=u.tolist(), D_impl=Dpy.tolist(), D_model=Dm.tolist(), D_oracle=Dor.tolist(), err=float(err), tol=float(tol), kappa=float(kappa))
+                ctx.violation('diffusivity-mismatch:stiff:%s' % name, 'along the eigen-direction %s of the exact tensor (value %.6g) Interstitial.diffusivity gives %.6g: '
+                              'relative error %.3g (float error bound %.3g) with rate ratios %.1e' % (np.round(u, 4).tolist(), float(u @ Dm @ u), float(u @ Dpy @ u),
+                                                                                               err / max(abs(float(u @ Dm @ u)), 1e-300), tol / max(abs(float(u @ Dm @ u)), 1e-300), 1.5 ** shift), rep2)
+                break
 
 
 def special_networks(ctx):
